@@ -1,5 +1,6 @@
 PROP = {
-    "groups": ["names", "names07", "recvfiles", "names-e2e"],
+    "shared_groups": "also runs the neighbouring groups whose code can break this property: relayneg (described under C14)",
+    "groups": ["names", "names07", "recvfiles", "names-e2e", "relayneg"],
     "rule": "real receiver name handling (recvFileName over the wire, createFile, unmarshalSourceFile+createDirOrFile with "
             "truncate on/off, archiveFileWriter.Write headers incl. nested, deleteCreatedFiles, getNewName) in real directory "
             "trees <private mktemp root>/l1/../l8/r/sb/{dest,outside,evil} (11 levels deep, at most 6 '..' per name, so that a tree "
